@@ -3,6 +3,7 @@ Whole-program progress of the specification interpreter on well-formed hint-free
 -/
 import SfntV.Proofs.T2Progress
 import SfntV.Proofs.T2Loop
+import SfntV.Proofs.T2Store
 
 set_option linter.unusedSimpArgs false
 set_option linter.unusedVariables false
@@ -28,6 +29,7 @@ structure Sim (a : Abs) (s : St) : Prop where
   stage : a.stage = s.stage
   stems : s.hstem.length + s.vstem.length = 2 * a.nStems
   le48 : s.stack.length ≤ 48
+  store : (a.written = [] ∧ s.storage = none) ∨ (∃ arr, s.storage = some arr ∧ arr.length = 32)
 
 def hintFree : Tok → Bool
   | .op o => !isStem o
@@ -62,7 +64,8 @@ theorem exec_moveto_progress (env : Env) (s : St) (o : Op) (code : List Nat) (hm
     (hc : legalCount o s.stack.length = true ∨
       (s.widthSet = false ∧ 1 ≤ s.stack.length ∧ legalCount o (s.stack.length - 1) = true)) :
     ∃ s', checkMove (exec strict env s o code) = .ok (.cont s' code) ∧ s'.stack = [] ∧ s'.hasMoved = true ∧
-      s'.widthSet = true ∧ s'.moveErr = false ∧ s'.stage = s.stage ∧ s'.hstem = s.hstem ∧ s'.vstem = s.vstem := by
+      s'.widthSet = true ∧ s'.moveErr = false ∧ s'.stage = s.stage ∧ s'.hstem = s.hstem ∧ s'.vstem = s.vstem ∧
+      s'.storage = s.storage := by
   cases o <;> simp only [isMoveto, Bool.false_eq_true] at hm
   all_goals
     simp only [legalCount, beq_iff_eq] at hc
@@ -74,7 +77,7 @@ theorem exec_moveto_progress (env : Env) (s : St) (o : Op) (code : List Nat) (hm
             first
               | (exfalso; simp [hw] at hc; done)
               | (exfalso; simp [hw] at hc; omega)
-              | (refine ⟨_, by simp [exec, hst, hw, setWidth, countCheck, strict, rMoveTo, clear, checkMove, hme, fixq]; rfl, ?_, ?_, ?_, ?_, ?_, ?_, ?_⟩ <;>
+              | (refine ⟨_, by simp [exec, hst, hw, setWidth, countCheck, strict, rMoveTo, clear, checkMove, hme, fixq]; rfl, ?_, ?_, ?_, ?_, ?_, ?_, ?_, ?_⟩ <;>
                   simp [rMoveTo, hme]))
 
 
@@ -191,8 +194,8 @@ theorem hvLoop_bnd (q : Quirks) : ∀ (l : List Int) (hz : Bool) (s : St), BndL 
   | [_, _, _], hz, s, _ => by simp [hvLoop]
 
 
-theorem gq1 : goQuirks.shortMovetoIgnored = true := rfl
-theorem gq2 : goQuirks.shortPathOpIgnored = true := rfl
+theorem gq1 : goQuirks.shortMovetoIgnored = false := rfl
+theorem gq2 : goQuirks.shortPathOpIgnored = false := rfl
 theorem gq3 : goQuirks.extraOperandsIgnored = true := rfl
 theorem sq1 : strict.shortMovetoIgnored = false := rfl
 theorem sq2 : strict.shortPathOpIgnored = false := rfl
@@ -328,6 +331,14 @@ theorem setWidth_frame (env : Env) (s : St) (p : Bool) :
     · split <;> exact ⟨rfl, rfl, rfl, rfl, rfl, rfl, rfl, rfl⟩
     · exact ⟨rfl, rfl, rfl, rfl, rfl, rfl, rfl, rfl⟩
 
+theorem setWidth_storage (env : Env) (s : St) (p : Bool) : (setWidth env s p).storage = s.storage := by
+  unfold setWidth
+  split
+  · rfl
+  · split
+    · split <;> rfl
+    · rfl
+
 /-- after `setGlyphWidth`: exactly the legal operands remain, and the width is set -/
 theorem setWidth_after (env : Env) (s : St) (n : Nat) (p : Bool)
     (h : (p = false ∧ s.stack.length = n) ∨ (p = true ∧ s.widthSet = false ∧ s.stack.length = n + 1)) :
@@ -383,12 +394,14 @@ theorem stem_tok (env : Env) (a : Abs) (s : St) (o : Op) (code : List Nat) (n : 
     refine ⟨{ s1 with hstem := s1.hstem ++ stemPairs 0 s1.stack, stack := [] }, fun q => ?_, rfl, ?_⟩
     · simp only [exec, hstg, hn2, if_false, hs1, hpar, Bool.false_and, Bool.false_eq_true]
     · exact ⟨rfl, by simp [k2], by simp [f3, hsim.moved], by simp [f4, hsim.noErr], hsim.notEnded, by simp [f5],
-        by simp only [List.length_append, f1, f2, hlen]; omega, by simp⟩
+        by simp only [List.length_append, f1, f2, hlen]; omega, by simp,
+        by have := setWidth_storage env { s with stage := 1 } (s.stack.length % 2 == 1); rw [hs1] at this; simpa [this] using hsim.store⟩
   case vstem | vstemhm =>
     refine ⟨{ s1 with vstem := s1.vstem ++ stemPairs 0 s1.stack, stack := [] }, fun q => ?_, rfl, ?_⟩
     · simp only [exec, hstg, hn2, if_false, hs1, hpar, Bool.false_and, Bool.false_eq_true]
     · exact ⟨rfl, by simp [k2], by simp [f3, hsim.moved], by simp [f4, hsim.noErr], hsim.notEnded, by simp [f5],
-        by simp only [List.length_append, f1, f2, hlen]; omega, by simp⟩
+        by simp only [List.length_append, f1, f2, hlen]; omega, by simp,
+        by have := setWidth_storage env { s with stage := 1 } (s.stack.length % 2 == 1); rw [hs1] at this; simpa [this] using hsim.store⟩
 
 /-- hintmask / cntrmask with the implicit vstem operands and ⌈nStems/8⌉ mask bytes: the same result
 for every quirk setting -/
@@ -451,7 +464,8 @@ theorem mask_tok (env : Env) (a : Abs) (s : St) (c : Bool) (bs rest : List Nat) 
       simp only [exec, hlate, Bool.false_eq_true, if_false, hs0, hs1, hpar, Bool.false_and, hearly, hnst, hne0, hk,
         hkl, List.take_left, List.drop_left, if_true] <;> rfl
   · exact ⟨rfl, by simp [k2], by simp [f3, hsim.moved], by simp [f4, hsim.noErr], hsim.notEnded, rfl,
-      by simp only [List.length_append, f1, f2, hlen]; omega, by simp⟩
+      by simp only [List.length_append, f1, f2, hlen]; omega, by simp,
+      by have := setWidth_storage env s (s.stack.length % 2 == 1); rw [hs1] at this; simpa [this] using hsim.store⟩
 
 /-- endchar with no operand, or with the width only -/
 theorem endchar_tok (env : Env) (a : Abs) (s : St) (code : List Nat) (n : Nat)
@@ -605,6 +619,255 @@ theorem arith_tok (env : Env) (s : St) (o : Op) (code : List Nat) (pops pushes :
     · exact hb.right.head
     · exact hb.right.tail.head
 
+/-! ### value-dependent operators with literal operands -/
+
+theorem trunc_mul_one' (v : Int) : trunc (v * one) = v := by
+  unfold trunc one
+  exact Int.mul_tdiv_cancel v (by decide)
+
+theorem lit1_reaches (q : Quirks) (env : Env) (s s' : St) (v : Int) (op : Op) (rest : List Nat)
+    (hv : -32768 ≤ v ∧ v ≤ 32767) (hs : s.stack.length + 1 ≤ 48)
+    (hex : checkMove (exec q env { s with stack := s.stack ++ [v * one] } op rest) = .ok (.cont s' rest)) :
+    Reaches q env s (encodeInt v ++ opBytes op ++ rest) s' rest := by
+  have h1 := step_encodeInt q env s v (opBytes op ++ rest) hv (by omega)
+  rw [List.append_assoc]
+  refine (Reaches.of_step h1).trans (Reaches.of_step ?_)
+  rw [step_op' q env _ op rest (by simp; omega)]
+  exact hex
+
+theorem lit2_reaches (q : Quirks) (env : Env) (s s' : St) (v w : Int) (op : Op) (rest : List Nat)
+    (hv : -32768 ≤ v ∧ v ≤ 32767) (hw : -32768 ≤ w ∧ w ≤ 32767) (hs : s.stack.length + 2 ≤ 48)
+    (hex : checkMove (exec q env { s with stack := s.stack ++ [v * one, w * one] } op rest) = .ok (.cont s' rest)) :
+    Reaches q env s (encodeInt v ++ encodeInt w ++ opBytes op ++ rest) s' rest := by
+  have h1 := step_encodeInt q env s v (encodeInt w ++ (opBytes op ++ rest)) hv (by omega)
+  have h2 := step_encodeInt q env { s with stack := s.stack ++ [v * one] } w (opBytes op ++ rest) hw (by simp; omega)
+  simp only [List.append_assoc]
+  refine (Reaches.of_step h1).trans ((Reaches.of_step h2).trans (Reaches.of_step ?_))
+  rw [step_op' q env _ op rest (by simp; omega)]
+  simpa [List.append_assoc] using hex
+
+theorem bndL_getD (l : List Int) (h : BndL l) (i : Nat) : Bnd (l.getD i 0) := by
+  rw [List.getD_eq_getElem?_getD]
+  cases hg : l[i]? with
+  | none => exact bnd_zero
+  | some v => exact h v (List.mem_of_getElem? hg)
+
+theorem bndL_rollList (l : List Int) (j : Int) (h : BndL l) : BndL (rollList l j) := by
+  unfold rollList
+  exact (h.drop _).append (h.take _)
+
+theorem int_toNat_small (i : Int) : (if i < 0 then 0 else i.toNat) = i.toNat := by
+  split
+  · omega
+  · rfl
+
+theorem fxDiv_bnd (x b : Int) (hx : Bnd x) (hb : b ≠ 0) : Bnd (fxDiv x (b * one)).1 := by
+  unfold fxDiv
+  simp only
+  have hA : (x * one).natAbs = x.natAbs * 65536 := by rw [Int.natAbs_mul]; rfl
+  have hB : (b * one).natAbs = b.natAbs * 65536 := by rw [Int.natAbs_mul]; rfl
+  have hb1 : 1 ≤ b.natAbs := by omega
+  rw [hA, hB]
+  have hxa : x.natAbs ≤ 32000 * 65536 := by unfold Bnd one at hx; omega
+  have hq : (2 * (x.natAbs * 65536) + b.natAbs * 65536) / (2 * (b.natAbs * 65536)) ≤ x.natAbs := by
+    apply Nat.le_of_lt_succ
+    rw [Nat.div_lt_iff_lt_mul (by omega)]
+    have h1 : x.natAbs * 65536 ≤ x.natAbs * (b.natAbs * 65536) := by
+      apply Nat.mul_le_mul_left
+      omega
+    have e : (x.natAbs + 1) * (2 * (b.natAbs * 65536)) = 2 * (x.natAbs * (b.natAbs * 65536)) + 2 * (b.natAbs * 65536) := by
+      rw [Nat.add_mul, Nat.one_mul, Nat.mul_left_comm]
+    rw [e]
+    generalize x.natAbs * (b.natAbs * 65536) = P at *
+    omega
+  generalize (2 * (x.natAbs * 65536) + b.natAbs * 65536) / (2 * (b.natAbs * 65536)) = qn at *
+  unfold Bnd one
+  split <;> constructor <;> omega
+
+/-- a value-dependent operator with literal deciding operands: progress of every configuration that
+matters, the simulation invariant, and agreement + boundedness for the agreeing forms -/
+theorem lit_tok (env : Env) (a a' : Abs) (s : St) (k : LitOp) (rest : List Nat)
+    (hwf : wfTok a (.lit k) = some a') (hsim : Sim a s) :
+    ∃ s', Reaches strict env s (encodeTok (.lit k) ++ rest) s' rest ∧ Sim a' s' ∧
+      (agreesTok (.lit k) = true → BndL s.stack →
+        Reaches goQuirks env s (encodeTok (.lit k) ++ rest) s' rest ∧ BndL s'.stack) := by
+  have hend := hsim.notEnded
+  have hend' : (a.ended = true) = False := by simp [hend]
+  have hd := hsim.depth
+  have hme := hsim.noErr
+  simp only [wfTok, hend', if_false] at hwf
+  cases k with
+  | div b =>
+    simp only at hwf
+    split at hwf
+    · rename_i hc
+      simp only [Bool.and_eq_true, maxStack_eq, bne_iff_ne, ne_eq] at hc
+      have hb1 := of_decide_eq_true hc.1.1.1.1
+      have hb2 := of_decide_eq_true hc.1.1.1.2
+      have hb0 := hc.1.1.2
+      have hdep := of_decide_eq_true hc.1.2
+      have h48 := of_decide_eq_true hc.2
+      simp only [Option.some.injEq] at hwf
+      subst hwf
+      obtain ⟨r, t, hrt, htl, hrl⟩ := split_last s.stack 1 (by omega)
+      obtain ⟨x, rfl⟩ := len1 t htl
+      have hne : ¬ (b * one = 0) := by unfold one; omega
+      have hex : ∀ q, checkMove (exec q env { s with stack := s.stack ++ [b * one] } .div rest) =
+          .ok (.cont { s with stack := r ++ [(fxDiv x (b * one)).1],
+                              inexact := s.inexact || !(fxDiv x (b * one)).2 } rest) := by
+        intro q
+        have : s.stack ++ [b * one] = r ++ [x, b * one] := by rw [hrt]; simp
+        simp [exec, this, pop2_snoc, hne, checkMove, hme]
+      refine ⟨{ s with stack := r ++ [(fxDiv x (b * one)).1], inexact := s.inexact || !(fxDiv x (b * one)).2 },
+        by simpa [encodeTok] using lit1_reaches strict env s _ b .div rest (by constructor <;> omega) (by omega) (hex strict),
+        ⟨by simp [hd, hrt], hsim.width, hsim.moved, hme, hend, hsim.stage, hsim.stems, by simp; rw [hrt] at hd; simp at hd; omega, hsim.store⟩,
+        fun _ hb => ⟨by simpa [encodeTok] using lit1_reaches goQuirks env s _ b .div rest (by constructor <;> omega) (by omega) (hex goQuirks), ?_⟩⟩
+      rw [hrt] at hb
+      exact hb.left.append (bndL_single (fxDiv_bnd x b hb.right.head hb0))
+    · cases hwf
+  | sqrt v =>
+    simp only at hwf
+    split at hwf
+    · rename_i hc
+      simp only [Bool.and_eq_true, maxStack_eq] at hc
+      have hv0 := of_decide_eq_true hc.1.1
+      have hv1 := of_decide_eq_true hc.1.2
+      have h48 := of_decide_eq_true hc.2
+      simp only [Option.some.injEq] at hwf
+      subst hwf
+      by_cases hpos : v * one > 0
+      · have hex : ∀ q, checkMove (exec q env { s with stack := s.stack ++ [v * one] } .sqrt rest) =
+            .ok (.cont { s with stack := s.stack ++ [(isqrt (v * one * one).toNat : Int)], inexact := s.inexact || isqrt (v * one * one).toNat * isqrt (v * one * one).toNat != (v * one * one).toNat } rest) := by
+          intro q
+          simp [exec, pop1_snoc, hpos, checkMove, hme]
+        refine ⟨{ s with stack := s.stack ++ [(isqrt (v * one * one).toNat : Int)], inexact := s.inexact || isqrt (v * one * one).toNat * isqrt (v * one * one).toNat != (v * one * one).toNat },
+          by simpa [encodeTok] using lit1_reaches strict env s _ v .sqrt rest (by constructor <;> omega) (by omega) (hex strict),
+          ⟨by simp [hd], hsim.width, hsim.moved, hme, hend, hsim.stage, hsim.stems, by simp; omega, hsim.store⟩,
+          fun hag hb => ⟨by simpa [encodeTok] using lit1_reaches goQuirks env s _ v .sqrt rest (by constructor <;> omega) (by omega) (hex goQuirks), ?_⟩⟩
+        have hle : isqrt (v * one * one).toNat ≤ 32000 * 65536 := by simpa [agreesTok] using hag
+        have h1 : (32000 : Int) * one = 2097152000 := rfl
+        exact hb.append (bndL_single (by simp only [Bnd, h1]; constructor <;> omega))
+      · have hz : v * one = 0 := by unfold one at *; omega
+        have hex : ∀ q, checkMove (exec q env { s with stack := s.stack ++ [v * one] } .sqrt rest) =
+            .ok (.cont { s with stack := s.stack ++ [0] } rest) := by
+          intro q
+          simp [exec, pop1_snoc, hz, checkMove, hme]
+        refine ⟨{ s with stack := s.stack ++ [0] },
+          by simpa [encodeTok] using lit1_reaches strict env s _ v .sqrt rest (by constructor <;> omega) (by omega) (hex strict),
+          ⟨by simp [hd], hsim.width, hsim.moved, hme, hend, hsim.stage, hsim.stems, by simp; omega, hsim.store⟩,
+          fun _ hb => ⟨by simpa [encodeTok] using lit1_reaches goQuirks env s _ v .sqrt rest (by constructor <;> omega) (by omega) (hex goQuirks),
+            hb.append (bndL_single bnd_zero)⟩⟩
+    · cases hwf
+  | index i =>
+    simp only at hwf
+    split at hwf
+    · rename_i hc
+      simp only [Bool.and_eq_true, maxStack_eq] at hc
+      have hi1 := of_decide_eq_true hc.1.1.1
+      have hi2 := of_decide_eq_true hc.1.1.2
+      have h48 := of_decide_eq_true hc.1.2
+      have hdep := of_decide_eq_true hc.2
+      simp only [Option.some.injEq] at hwf
+      subst hwf
+      have hlen : ¬ s.stack.length < i.toNat + 1 := by omega
+      have hex : ∀ q, checkMove (exec q env { s with stack := s.stack ++ [i * one] } .index rest) =
+          .ok (.cont { s with stack := s.stack ++ [s.stack.getD (s.stack.length - i.toNat - 1) 0] } rest) := by
+        intro q
+        simp [exec, pop1_snoc, trunc_mul_one', int_toNat_small, hlen, checkMove, hme]
+      refine ⟨{ s with stack := s.stack ++ [s.stack.getD (s.stack.length - i.toNat - 1) 0] },
+        by simpa [encodeTok] using lit1_reaches strict env s _ i .index rest (by constructor <;> omega) (by omega) (hex strict),
+        ⟨by simp [hd], hsim.width, hsim.moved, hme, hend, hsim.stage, hsim.stems, by simp; omega, hsim.store⟩,
+        fun _ hb => ⟨by simpa [encodeTok] using lit1_reaches goQuirks env s _ i .index rest (by constructor <;> omega) (by omega) (hex goQuirks),
+          hb.append (bndL_single (bndL_getD _ hb _))⟩⟩
+    · cases hwf
+  | roll n j =>
+    simp only at hwf
+    split at hwf
+    · rename_i hc
+      simp only [Bool.and_eq_true, maxStack_eq] at hc
+      have hn1 := of_decide_eq_true hc.1.1.1.1.1
+      have hn2 := of_decide_eq_true hc.1.1.1.1.2
+      have hj1 := of_decide_eq_true hc.1.1.1.2.1
+      have hj2 := of_decide_eq_true hc.1.1.1.2.2
+      have hn0 := of_decide_eq_true hc.1.1.2
+      have hdep := of_decide_eq_true hc.1.2
+      have h48 := of_decide_eq_true hc.2
+      simp only [Option.some.injEq] at hwf
+      subst hwf
+      have hcnt : ¬ (n < 0 ∨ n > (s.stack.length : Int)) := by omega
+      have hz : ¬ n = 0 := by omega
+      have hex : ∀ q, checkMove (exec q env { s with stack := s.stack ++ [n * one, j * one] } .roll rest) =
+          .ok (.cont { s with stack := s.stack.take (s.stack.length - n.toNat) ++
+                                      rollList (s.stack.drop (s.stack.length - n.toNat)) j } rest) := by
+        intro q
+        simp [exec, pop2_snoc, trunc_mul_one', hcnt, hz, checkMove, hme]
+      have hlenR : (s.stack.take (s.stack.length - n.toNat) ++
+          rollList (s.stack.drop (s.stack.length - n.toNat)) j).length = s.stack.length := by
+        simp [rollList]; omega
+      have hR := fun q => lit2_reaches q env s _ n j .roll rest (by constructor <;> omega) (by constructor <;> omega) (by omega) (hex q)
+      refine ⟨{ s with stack := s.stack.take (s.stack.length - n.toNat) ++ rollList (s.stack.drop (s.stack.length - n.toNat)) j },
+        by simpa [encodeTok] using hR strict,
+        ⟨by rw [hd]; exact hlenR.symm, hsim.width, hsim.moved, hme, hend, hsim.stage, hsim.stems, by rw [hlenR]; omega, hsim.store⟩,
+        fun _ hb => ⟨by simpa [encodeTok] using hR goQuirks, (hb.take _).append (bndL_rollList _ _ (hb.drop _))⟩⟩
+    · cases hwf
+  | put i =>
+    simp only at hwf
+    split at hwf
+    · rename_i hc
+      simp only [Bool.and_eq_true, maxStack_eq] at hc
+      have hi0 := of_decide_eq_true hc.1.1.1
+      have hi1 := of_decide_eq_true hc.1.1.2
+      have hdep := of_decide_eq_true hc.1.2
+      have h48 := of_decide_eq_true hc.2
+      simp only [Option.some.injEq] at hwf
+      subst hwf
+      obtain ⟨r, t, hrt, htl, hrl⟩ := split_last s.stack 1 (by omega)
+      obtain ⟨x, rfl⟩ := len1 t htl
+      have hm : ¬ (i < 0 ∨ i ≥ (Gen.t2storagePutLimit : Int)) := by
+        simp only [Gen.t2storagePutLimit]; omega
+      have hex : ∀ q, checkMove (exec q env { s with stack := s.stack ++ [i * one] } .put rest) =
+          .ok (.cont { { s with stack := r } with storage := some ((s.storage.getD (List.replicate Gen.t2storageSize 0)).set i.toNat x) } rest) := by
+        intro q
+        have : s.stack ++ [i * one] = r ++ [x, i * one] := by rw [hrt]; simp
+        simp [exec, this, pop2_snoc, trunc_mul_one', hm, checkMove, hme]
+      refine ⟨{ { s with stack := r } with storage := some ((s.storage.getD (List.replicate Gen.t2storageSize 0)).set i.toNat x) },
+        by simpa [encodeTok] using lit1_reaches strict env s _ i .put rest (by constructor <;> omega) (by omega) (hex strict),
+        ⟨by simp only [hd, hrt]; simp, hsim.width, hsim.moved, hme, hend, hsim.stage, hsim.stems,
+          by simp only; rw [hrt] at hd; simp at hd; omega,
+          Or.inr ⟨_, rfl, by
+            rcases hsim.store with ⟨_, hn⟩ | ⟨arr, ha, hl⟩
+            · simp [hn, Gen.t2storageSize]
+            · simp [ha, hl]⟩⟩,
+        fun _ hb => ⟨by simpa [encodeTok] using lit1_reaches goQuirks env s _ i .put rest (by constructor <;> omega) (by omega) (hex goQuirks),
+          by rw [hrt] at hb; exact hb.left⟩⟩
+    · cases hwf
+  | get i =>
+    simp only at hwf
+    split at hwf
+    · rename_i hc
+      simp only [Bool.and_eq_true, maxStack_eq] at hc
+      have hi0 := of_decide_eq_true hc.1.1.1
+      have hi1 := of_decide_eq_true hc.1.1.2
+      have hw : a.written.contains i.toNat = true := hc.1.2
+      have h48 := of_decide_eq_true hc.2
+      simp only [Option.some.injEq] at hwf
+      subst hwf
+      have hwne : a.written ≠ [] := by
+        intro h0; rw [h0] at hw; simp at hw
+      obtain ⟨arr, ha, hl⟩ : ∃ arr, s.storage = some arr ∧ arr.length = 32 := by
+        rcases hsim.store with ⟨h0, _⟩ | h
+        · exact absurd h0 hwne
+        · exact h
+      have hm : ¬ (i < 0 ∨ i ≥ (arr.length : Int)) := by rw [hl]; omega
+      have hex : checkMove (exec strict env { s with stack := s.stack ++ [i * one] } .get rest) =
+          .ok (.cont { s with stack := s.stack ++ [arr.getD i.toNat 0] } rest) := by
+        simp [exec, pop1_snoc, trunc_mul_one', ha, hm, checkMove, hme]
+      exact ⟨{ s with stack := s.stack ++ [arr.getD i.toNat 0] },
+        by simpa [encodeTok] using lit1_reaches strict env s _ i .get rest (by constructor <;> omega) (by omega) hex,
+        ⟨by simp [hd], hsim.width, hsim.moved, hme, hend, hsim.stage, hsim.stems, by simp; omega, hsim.store⟩,
+        fun hag => by simp [agreesTok] at hag⟩
+    · cases hwf
+
 /-! ### one token, whole programs -/
 
 theorem checkMove_cont' (s : St) (c : List Nat) (h : s.moveErr = false) :
@@ -631,7 +894,7 @@ theorem tok_progress (env : Env) (a a' : Abs) (s : St) (t : Tok) (rest : List Na
       subst hwf
       have hd := hsim.depth
       refine ⟨_, Reaches.of_step (step_encodeInt strict env s v rest (by constructor <;> omega) h48),
-        ⟨by simp [hd], hsim.width, hsim.moved, hsim.noErr, hend, hsim.stage, hsim.stems, by simp; omega⟩,
+        ⟨by simp [hd], hsim.width, hsim.moved, hsim.noErr, hend, hsim.stage, hsim.stems, by simp; omega, hsim.store⟩,
         fun _ hb => ⟨Reaches.of_step (step_encodeInt goQuirks env s v rest (by constructor <;> omega) h48), ?_⟩⟩
       exact hb.append (bndL_single (by simp only [Bnd, one]; constructor <;> omega))
     · cases hwf
@@ -647,10 +910,11 @@ theorem tok_progress (env : Env) (a a' : Abs) (s : St) (t : Tok) (rest : List Na
       subst hwf
       have hd := hsim.depth
       refine ⟨_, Reaches.of_step (step_encodeFixed strict env s u rest (by constructor <;> omega) h48),
-        ⟨by simp [hd], hsim.width, hsim.moved, hsim.noErr, hend, hsim.stage, hsim.stems, by simp; omega⟩,
+        ⟨by simp [hd], hsim.width, hsim.moved, hsim.noErr, hend, hsim.stage, hsim.stems, by simp; omega, hsim.store⟩,
         fun _ hb => ⟨Reaches.of_step (step_encodeFixed goQuirks env s u rest (by constructor <;> omega) h48), ?_⟩⟩
       exact hb.append (bndL_single (by simp only [Bnd, one]; constructor <;> omega))
     · cases hwf
+  | lit k => exact lit_tok env a a' s k rest hwf hsim
   | mask c bs =>
     simp only [wfTok, hend', if_false] at hwf
     cases haw : afterWidth a .hintmask with
@@ -689,10 +953,10 @@ theorem tok_progress (env : Env) (a a' : Abs) (s : St) (t : Tok) (rest : List Na
           rcases hc with ⟨h1, h2⟩ | ⟨h1, h2, h3⟩
           · left; rw [← h1]; exact h2
           · right; exact ⟨h1, by omega, by rw [h2]; simpa using h3⟩
-        obtain ⟨s', hex, k1, k2, k3, k4, k5, k6, k7⟩ := exec_moveto_progress env s o rest hmv hsim.noErr hc'
+        obtain ⟨s', hex, k1, k2, k3, k4, k5, k6, k7, k8⟩ := exec_moveto_progress env s o rest hmv hsim.noErr hc'
         refine ⟨s', Reaches.of_step (by rw [step_op' strict env s o rest h48]; exact hex),
           ⟨by simp [k1], by simp [k3], by simp [k2], k4, hend, by simp [k5, hsim.stage],
-            by rw [k6, k7]; exact hsim.stems, by simp [k1]⟩, fun _ hb => ⟨?_, by rw [k1]; intro v hv; cases hv⟩⟩
+            by rw [k6, k7]; exact hsim.stems, by simp [k1], by rw [k8]; exact hsim.store⟩, fun _ hb => ⟨?_, by rw [k1]; intro v hv; cases hv⟩⟩
         exact Reaches.of_step (by rw [step_op' goQuirks env s o rest h48, exec_moveto_agree env s o rest hmv hc' hb]; exact hex)
     · simp only [hmv, Bool.false_eq_true, if_false] at hwf
       by_cases hpo : isPathOp o = true
@@ -707,11 +971,18 @@ theorem tok_progress (env : Env) (a a' : Abs) (s : St) (t : Tok) (rest : List Na
           obtain ⟨s1, hex, hk⟩ := exec_pathop_progress env s o rest hpo hl
           obtain ⟨k1, k2, k3, k4, k5, k6, k7, k8⟩ := hk
           have hme : (clear s1).moveErr = false := by simp [clear, k2 hmoved, hsim.noErr]
+          have hsto : (clear s1).storage = s.storage := by
+            obtain ⟨s1', hex', hst'⟩ := exec_pathop_sto env s o rest hpo hl
+            rw [hex] at hex'
+            simp only [Outcome.ok.injEq, Res.cont.injEq, and_true] at hex'
+            rw [hex']
+            exact hst'
           have hstep : T2.step strict env s (opBytes o ++ rest) = .ok (.cont (clear s1) rest) := by
             rw [step_op' strict env s o rest h48, hex]; exact checkMove_cont' _ _ hme
           refine ⟨clear s1, Reaches.of_step hstep,
             ⟨rfl, by simp [clear, k3, hsim.width], by simp [clear, k1, hsim.moved], hme, hend,
-              by simp [clear, k5, hsim.stage], by simp only [clear, k6, k7]; exact hsim.stems, by simp [clear]⟩,
+              by simp [clear, k5, hsim.stage], by simp only [clear, k6, k7]; exact hsim.stems, by simp [clear],
+              by rw [hsto]; exact hsim.store⟩,
             fun hag hb => ⟨?_, by simp only [clear]; intro v hv; cases hv⟩⟩
           have hne2 : o ≠ .flex1 ∧ o ≠ .hflex1 := by
             simp only [agreesTok, Bool.not_eq_true', Bool.or_eq_false_iff, beq_eq_false_iff_ne, ne_eq] at hag
@@ -763,7 +1034,7 @@ theorem tok_progress (env : Env) (a a' : Abs) (s : St) (t : Tok) (rest : List Na
                   rw [step_op' strict env s o rest h48, hex]; exact checkMove_cont' _ _ hsim.noErr
                 refine ⟨{ s with stack := st }, Reaches.of_step hstep,
                   ⟨by simp [hlen, hd], hsim.width, hsim.moved, hsim.noErr, hend, hsim.stage, hsim.stems,
-                    by simp only [hlen]; rw [← hd]; omega⟩, fun hag hb => ?_⟩
+                    by simp only [hlen]; rw [← hd]; omega, hsim.store⟩, fun hag hb => ?_⟩
                 simp only [agreesTok, Bool.not_eq_true', Bool.or_eq_false_iff, beq_eq_false_iff_ne, ne_eq] at hag
                 refine ⟨Reaches.of_step ?_, hbn hb hag.1.1.1.1 hag.1.1.1.2 hag.1.1.2⟩
                 rw [step_op' goQuirks env s o rest h48, hag1 hag.1.1.1.1, hex]
@@ -783,6 +1054,16 @@ theorem encodeTok_ne_nil (t : Tok) : encodeTok t ≠ [] := by
   | op o =>
     simp only [encodeTok]
     rcases opBytes_all' o with ⟨b, hb, _⟩ | ⟨b, hb, _⟩ <;> rw [hb] <;> simp
+  | lit k =>
+    have hi : ∀ v, encodeInt v ≠ [] := by
+      intro v
+      simp only [encodeInt]
+      split
+      · simp
+      · split
+        · simp
+        · split <;> simp
+    cases k <;> simp [encodeTok, hi]
   | mask c bs =>
     simp only [encodeTok]
     rcases opBytes_all' (if c then Op.cntrmask else Op.hintmask) with ⟨b, hb, _⟩ | ⟨b, hb, _⟩ <;> rw [hb] <;> simp
@@ -849,7 +1130,7 @@ theorem prog_progress (env : Env) : ∀ (p : Program) (a a' : Abs) (s : St),
         exact g1.trans (k3 hag2.2 g2)
 
 theorem sim_init (env : Env) : Sim {} (St.init env) :=
-  ⟨rfl, rfl, rfl, rfl, rfl, rfl, rfl, by simp [St.init]⟩
+  ⟨rfl, rfl, rfl, rfl, rfl, rfl, rfl, by simp [St.init], Or.inl ⟨rfl, rfl⟩⟩
 
 /-- whole-program progress and agreement for well-formed programs without subroutine calls -/
 theorem wf_progress (env : Env) (p : Program) (h : WF p) :
